@@ -513,13 +513,13 @@ def matrix_rich():
               ("k", L("int", {"min": None, "max": None}))]
     ops = [("append", (), "items", [("set", (), "n", 1, "attr")]), ("append", (), "items", [("set", (), "n", 2, "attr")]),
            ("reset", (("item", "items", 1),), "n"), ("set", (), "k", 3, "attr")]
-    cases.append(rcase(fields, ops, "matrix-F50", seed=26, region="F50"))
-    cases.append(rcase(fields, ops[:1] + [("reset", (("item", "items", 0),), "n")], "matrix-F50", seed=27, region="F50"))
+    cases.append(rcase(fields, ops, "matrix-stale-item", seed=26))
+    cases.append(rcase(fields, ops[:1] + [("reset", (("item", "items", 0),), "n")], "matrix-stale-item", seed=27))
     return cases
 
 
 def matrix_model():
-    """cases in the model's vocabulary: plain valid states, the F36 and F50 regions"""
+    """cases in the model's vocabulary: plain valid states, the F36 region, stale list items (F50, repaired)"""
     def leaf(kind, required=False, default=None, sensitive=False, callable_=False):
         return {"t": "leaf", "kind": kind, "required": required, "default": default, "callable": callable_, "sensitive": sensitive}
     item = [("n", leaf(("int", 0, 10), required=True)), ("s", leaf(("str", None, 5, True, True), default="d", sensitive=True))]
@@ -550,8 +550,8 @@ def matrix_model():
         ("model-F36", None, base36, [((("key", "opts"),), ("set", "need", 4, "attr"))]),
         ("model-F36", "F36", base36b, [((), ("set", "rows", [{}], "attr")), ((), ("append", "rows", {"flag": True, "need": True}))]),
         ("model-F36", None, base, [((("key", "sub"), ("key", "inner")), ("set", "flag", "off", "attr")), ((("key", "sub"), ("key", "inner")), ("set", "t", "bad!", "attr"))]),
-        ("model-F50", "F50", base, [((), ("set", "items", [{"n": 4}], "attr")), ((), ("append", "items", {"n": 5})), ((("item", "items", 1),), ("reset", "n"))]),
-        ("model-F50", "F50", base, [((), ("set", "items", ({"n": 4},), "attr")), ((("item", "items", 0),), ("set", "s", "bad!", "attr"))]),
+        ("model-stale-item", None, base, [((), ("set", "items", [{"n": 4}], "attr")), ((), ("append", "items", {"n": 5})), ((("item", "items", 1),), ("reset", "n"))]),
+        ("model-stale-item", None, base, [((), ("set", "items", ({"n": 4},), "attr")), ((("item", "items", 0),), ("set", "s", "bad!", "attr"))]),
     ]
     cases = []
     for kind, region, bs, ops in hist:
@@ -943,7 +943,7 @@ def shallow_errors(cfg):
 
 
 def find_regions(root):
-    """paths of: disabled configurations holding something invalid (F36), stale list items (F50), include fields
+    """paths of: disabled configurations holding something invalid (F36), stale list items (key "F50": repaired, a regression region now), include fields
     holding a value (F35: the scope), configurations below the root naming their own key file (F34)"""
     from cincoconfig.core import IncludeFieldMixin
     import cincoconfig as cc
@@ -1460,11 +1460,17 @@ def direct_oracle(case, res, root, schema, kf, default_key):
     regions, disabled = find_regions(root)
     res["regions"] = regions
     for r, ps in regions.items():
-        if ps:
+        if ps and r != "F50":
             tags.add("region:" + r)
     if disabled:
         tags.add("feature-disabled")
     tags.add("valid-final-state" if valid else "invalid-final-state")
+    if regions["F50"]:
+        # regression of the repaired defect F50: whole-configuration validation descends into the items of a list
+        tags.add("stale-list-item")
+        if valid:
+            add(res, "F50 is back: validate() reports nothing although the list item(s) %s hold invalid values" % ", ".join(regions["F50"][:3]),
+                clause="stale-item")
     if not rep["plain"]:
         tags.add("skip:non-plain-value")
     if rep["nonfinite"]:
@@ -1534,8 +1540,6 @@ def classify(case, msg):
     if what == "load-raise" and p is not None:
         if any(under(p, r) for r in reg.get("F36", [])):
             return "F36"
-        if any(under(p, r) for r in reg.get("F50", [])):
-            return "F50"
     if what in ("load-raise", "diff") and p is not None and any(under(p, r) and p != r for r in reg.get("F34", [])) \
             and _is_secret_path(case, p):
         return "F34"
